@@ -341,6 +341,32 @@ func TestC07(t *testing.T) {
 		}
 	}
 
+	// private names: a function of an imported file is usable through the alias exactly if its name starts with an upper-case
+	// letter - whatever else the name contains (an underscore or a digit is no upper-case letter)
+	if e.Shard == 1%e.NShards {
+		for _, sp := range []struct {
+			name   string
+			public bool
+		}{{"priv", false}, {"p", false}, {"pUB", false}, {"_hidden", false}, {"_Hidden", false}, {"__x", false}, {"x9", false}, {"p_Q", false}, {"_9", false},
+			{"Pub", true}, {"P", true}, {"P9", true}, {"P_q", true}, {"PUB", true}, {"Zz", true}} {
+			libSrc := "func " + sp.name + "() int {\n\treturn 41\n}\nfunc Wrap() int {\n\treturn " + sp.name + "() + 1\n}\n"
+			for _, use := range []struct{ main, note, expect string }{
+				{"import l \"lib.tsh\"\nprint(l.Wrap())\n", "used-in-its-own-file", "accept"},
+				{"import l \"lib.tsh\"\nprint(l." + sp.name + "())\n", "called-through-the-alias", map[bool]string{true: "accept", false: "reject"}[sp.public]},
+				{"import l \"lib.tsh\"\nx := l." + sp.name + "() + l.Wrap()\nprint(x)\n", "called-through-the-alias-as-operand", map[bool]string{true: "accept", false: "reject"}[sp.public]},
+				{"import l \"lib.tsh\"\nprint(" + sp.name + "())\n", "called-without-alias", "reject"},
+			} {
+				c := verdictCase{Kind: "verdict", Property: "C07", Files: map[string]string{"main.tsh": use.main, "lib.tsh": libSrc}, Main: "main.tsh", Expect: use.expect, Note: "private-name:" + sp.name + " " + use.note}
+				r.Eval()
+				r.NonTrivial(use.main+libSrc, nil)
+				r.Class("private-name:" + use.expect)
+				if kind, msg := checkVerdict(c); kind != "" {
+					r.Violate(rep.Sig{"private-name": use.note, "public": fmt.Sprint(sp.public), "kind": kind}, c.Note+": "+msg+"\n--- main\n"+use.main+"--- lib\n"+libSrc, c)
+				}
+			}
+		}
+	}
+
 	// enumeration: value-returning functions x body shapes. Every shape whose end can be reached without a return is rejected;
 	// a body ending in a return statement is accepted.
 	{
